@@ -29,6 +29,8 @@ def check_predict(chk, rep, repo, cls, fields):
     G = ("attr", ("self",), "subgraph")
     from ..common import require_scalar_fragment
     require_scalar_fragment(w, w.entry.qual)
+    from ..rules_knn import unclamp_k
+    w = unclamp_k(w, G)
     scans = find_knn_scans(w)
     if not scans:
         from ..rules_knn import report_missing_scan
@@ -55,6 +57,12 @@ def check_predict(chk, rep, repo, cls, fields):
            f"the query nodes are built from '{show(qargs.get('X')) if qargs.get('X') else '?'}' instead of the argument '{fn.params[1]}'",
            line=sc.per.line)
     kterm = sc.slot
+    # (min(best_k, n_nodes [- 1]) is best_k for every model fit can produce: a sample has at most n - 1 neighbours)
+    if kterm[0] == "min" and len(kterm[1]) == 2 and ("attr", G, "best_k") in kterm[1]:
+        other = [x for x in kterm[1] if x != ("attr", G, "best_k")][0]
+        nn = (("attr", G, "n_nodes"), ("call", ("builtin", "len"), (("attr", G, "nodes"),), ()))
+        if other in nn or (other[0] == "bin" and other[1] == "-" and other[2] in nn and other[3] == ("const", 1)):
+            kterm = ("attr", G, "best_k")
     rep.fn("KNN-k", fn, "k is the model's stored best_k", kterm == ("attr", G, "best_k"),
            f"k is '{show(kterm)}'", line=sc.per.line)
     # arg-max scan
@@ -152,7 +160,8 @@ def check_predict(chk, rep, repo, cls, fields):
         else:
             rep.fn("DENSITY-sum", fn, "density accumulates exp(-d_r / stored constant) over r < k", False, detail)
     # result order
-    rets = [e for e in w.events if e.kind == "return" and e.fn is w.entry]
+    from ..rules_premise import main_returns
+    rets = main_returns(w)
     okr = False
     if len(rets) == 1:
         v = rets[0].value
